@@ -127,7 +127,7 @@ PROPS = {
         "claimed": True,
         "title": "Blind signatures and DLEQ proofs are algebraically correct and tamper-evident",
         "lean": ["Gonuts.Props.C10", "Gonuts.Tie.Spec"],
-        "streams": ["bdhke", "bdhke-spec", "mint-mon"],
+        "streams": ["bdhke", "bdhke-spec", "mint-mon", "wallet-hist"],
         "quick_shards": {"mint-mon": 3},
         "level": "proof",
         "technique": "Lean 4 theorems (Mathlib linear algebra) about blind/sign/unblind/verify/GenerateDLEQ/VerifyDLEQ/VerifyProofDLEQ "
